@@ -240,7 +240,7 @@ theorem sinv_step_zMask {cfg : Cfg} {s s' : St} {t : Tid} {ev : Ev} {r : GRet} {
   have hpow : ∃ e, 2 * old - 1 + 1 = 2 ^ e := by
     obtain ⟨e, he⟩ := h.pow2
     exact ⟨e + 1, by rw [hm1, hold, he, Nat.pow_succ]; omega⟩
-  have hplace : Placed cfg.h (2 * old - 1 + 1) (rehash cfg.h oc (2 * old) s.bkt) := by
+  have hplace : Placed cfg.h (2 * old - 1 + 1) (rehashOf cfg.h (2 * old) (allItems oc s.bkt)) := by
     rw [hm1]; exact rehash_place cfg.h oc (2 * old) s.bkt
   have huniq := rehash_uniq cfg.h oc (2 * old) s.bkt hpl hocpos hnpos h.uniq
   sinv_all h
